@@ -76,9 +76,18 @@ C20_Forward_Step ==
        /\ [owner |-> xev'.m.owner, conn |-> xev'.m.conn] \in xst.caps
   ELSE xst'.sent = xst.sent     \* nothing is sent otherwise
 
+\* ... and it DOES forward when the owner's channel is active and its capability exists,
+\* whatever the inner message is (it is a message for the host chain: this chain has no
+\* business judging its contents)
+C20_SendsWhenPossible_Step ==
+  (xev'.type = "SubmitTx" /\ xev'.dom = "spec"
+     /\ [owner |-> xev'.m.owner, conn |-> xev'.m.conn] \in xst.chans
+     /\ [owner |-> xev'.m.owner, conn |-> xev'.m.conn] \in xst.caps) => xev'.ok
+
 \* one owner's message never travels over another owner's port
 C20_OwnPort == \A i \in DOMAIN xst.sent : xst.sent[i].owner # "?"
 
 C20_Forward_Prop == [][C20_Forward_Step]_xvars
+C20_SendsWhenPossible_Prop == [][C20_SendsWhenPossible_Step]_xvars
 
 =============================================================================
